@@ -539,6 +539,9 @@ SB_VOCAB = [
     V(r"basin_graph\.edges\(\)\[(\w+)\]", r"m_edges[FSL_IDX1(\1, m_edges_n)]"),
     V(r"\bpits\[((?:[^\[\]]|\[[^\[\]]*\])+)\]", r"pits[FSL_IDX1(\1, nbasins)]"),
     V(r"\bcontinue;", "return; /* `continue` of the outlined loop body */"),
+    # pits = basin_graph.outlets(): one entry per basin
+    V(r"\bpits\.size\(\)", "nbasins"),
+    V(r"basin_graph\.basins_count\(\)", "nbasins"),
 ]
 SB_PRE = r"""
 size_t SG, SG2;   /* ghost nodes */
